@@ -185,6 +185,13 @@ func (m *Model) callEffects(c *ssa.CallCommon, out *Effects) {
 	out.ghost["$alloc"] = true
 	for _, callee := range m.callees(c) {
 		ce := m.funcEffects(callee)
+		if m.spec != nil {
+			if ct, ok := m.spec.Contracts[m.fnName[callee]]; ok {
+				for _, g := range ct.Updates {
+					out.ghost[g] = true
+				}
+			}
+		}
 		if c.StaticCallee() != nil && m.spec != nil {
 			if ct, ok := m.spec.Contracts[m.fnName[callee]]; ok && ct.HasMod && len(ct.Modifies) == 0 {
 				// `modifies nothing` (proved for the callee, or trusted): whatever it writes is fresh
@@ -297,6 +304,8 @@ func (m *Model) externalEffects(f *ssa.Function, ef *Effects) {
 		ef.ghost["$out"] = true
 	case "fmt.Print", "fmt.Printf", "fmt.Println":
 		ef.ghost["$out"] = true
+	case "fmt.Errorf", "errors.New":
+		ef.ghost["$faulted"] = true
 	}
 }
 
@@ -314,6 +323,26 @@ func (ef *Effects) allHeap() map[string]string {
 
 func (e *Enc) loopEffects(fc *fctx, l *loopInfo) *Effects {
 	ef := newEffects()
+	// ghosts assigned by `after` clauses of the contract may change in any loop that makes calls
+	if fc.contract != nil {
+		for _, g := range fc.contract.Ghost {
+			ef.ghost[g.Label] = true
+		}
+	}
+	// dynamic calls through a function-type role: that role's `updates`
+	for b := range l.blocks {
+		for _, ins := range b.Instrs {
+			if c, ok := ins.(ssa.CallInstruction); ok && c.Common().StaticCallee() == nil && !c.Common().IsInvoke() {
+				if _, isB := c.Common().Value.(*ssa.Builtin); !isB {
+					if ct, ok := e.m.spec.FuncTypes[e.funcRole(c.Common().Value)]; ok {
+						for _, g := range ct.Updates {
+							ef.ghost[g] = true
+						}
+					}
+				}
+			}
+		}
+	}
 	for b := range l.blocks {
 		for _, ins := range b.Instrs {
 			e.m.instrEffects(ins, ef, l.blocks)
